@@ -15,13 +15,16 @@ import (
 type Expr interface{}
 
 type (
-	EIdent  struct{ Name string }
-	EInt    struct{ V string }
-	EReal   struct{ V string }
-	EBool   struct{ V bool }
-	EStr    struct{ V string }
-	ENil    struct{}
-	EUnary  struct{ Op string; X Expr }
+	EIdent struct{ Name string }
+	EInt   struct{ V string }
+	EReal  struct{ V string }
+	EBool  struct{ V bool }
+	EStr   struct{ V string }
+	ENil   struct{}
+	EUnary struct {
+		Op string
+		X  Expr
+	}
 	EBinary struct {
 		Op   string
 		X, Y Expr
@@ -104,34 +107,35 @@ type ImplClause struct {
 }
 
 type FuncContract struct {
-	Pkg        string // package path
-	RecvName   string
-	RecvType   string // "*FrameLoop" / "FrameLoop" / "" ; for iface: interface type name
-	Kind       string // "func" | "iface" | "functype" | "fieldfunc"
-	Name       string
-	ParamNames []string
-	HasParams  bool
-	ResNames   []string
-	Tags       []string
-	Requires   []Clause
-	Ensures    []Clause
-	Checks     []Clause // internal postconditions: may mention locals; not visible to callers
-	Modifies   []ModLoc
+	Pkg         string // package path
+	RecvName    string
+	RecvType    string // "*FrameLoop" / "FrameLoop" / "" ; for iface: interface type name
+	Kind        string // "func" | "iface" | "functype" | "fieldfunc"
+	Name        string
+	ParamNames  []string
+	HasParams   bool
+	ResNames    []string
+	Tags        []string
+	Requires    []Clause
+	Ensures     []Clause
+	Checks      []Clause // internal postconditions: may mention locals; not visible to callers
+	Modifies    []ModLoc
 	ModifiesSet bool
-	GhostEntry []GhostAssign
-	GhostExit  []GhostAssign
-	LoopInv    map[int][]Clause
-	LoopMod    map[int][]ModLoc
-	CallGhosts []CallGhost
+	GhostEntry  []GhostAssign
+	GhostExit   []GhostAssign
+	LoopInv     map[int][]Clause
+	LoopMod     map[int][]ModLoc
+	CallGhosts  []CallGhost
 	GhostParams []string
 	Only        []OnlyClause
 	Impl        *ImplClause
+	PanicsIf    *Clause  // "panics if cond": an explicit panic is allowed exactly when cond holds (locals visible)
 	Callees     []string // whitelist of callee short names (empty = unrestricted)
 	CalleesTags []string
-	Mode       string // "" strict | "permissive" | "trusted"
-	Allocates  bool
-	File       string
-	Line       int
+	Mode        string // "" strict | "permissive" | "trusted"
+	Allocates   bool
+	File        string
+	Line        int
 }
 
 func (fc *FuncContract) Key() string {
@@ -599,7 +603,7 @@ func (ps *parser) parsePrimary() Expr {
 var declKeywords = map[string]bool{"ghost": true, "pure": true, "pred": true, "rec": true, "func": true, "axiom": true, "lemma": true,
 	"package": true, "import": true, "abstract": true, "iface": true, "functype": true, "fieldfunc": true}
 var clauseKeywords = map[string]bool{"requires": true, "ensures": true, "check": true, "modifies": true, "ghost_entry": true,
-	"ghost_exit": true, "loop": true, "call": true, "mode": true, "allocates": true, "tags": true, "ghostparams": true, "only": true, "callees": true, "implements": true}
+	"ghost_exit": true, "loop": true, "call": true, "mode": true, "allocates": true, "tags": true, "ghostparams": true, "only": true, "callees": true, "implements": true, "panics": true}
 
 type rawLine struct {
 	text string
@@ -757,6 +761,13 @@ func parseClause(fc *FuncContract, w, rest string, en rawLine, path string) erro
 	case "tags":
 		tags, _ := parseTags("[" + rest + "]")
 		fc.Tags = append(fc.Tags, tags...)
+	case "panics":
+		body := strings.TrimSpace(strings.TrimPrefix(strings.TrimSpace(rest), "if"))
+		e, err := parseExpr(body)
+		if err != nil {
+			return err
+		}
+		fc.PanicsIf = &Clause{E: e, Text: body}
 	case "implements":
 		tags, body := parseTags(rest)
 		parts := strings.Fields(body)
@@ -904,6 +915,18 @@ func parseClause(fc *FuncContract, w, rest string, en rawLine, path string) erro
 			cg.Val, cg.Tags, cg.Text = e, tags, b2
 		case "bind":
 			cg.Name = parts[2]
+		case "tally":
+			// call f#k tally name if cond
+			if len(parts) < 5 || parts[3] != "if" {
+				return fmt.Errorf("call f#k tally name if cond")
+			}
+			cg.Name = parts[2]
+			body := strings.TrimSpace(rest[strings.Index(rest, " if ")+4:])
+			e, err := parseExpr(body)
+			if err != nil {
+				return err
+			}
+			cg.Val, cg.Text = e, body
 		case "ghost":
 			i := strings.Index(rest, "=")
 			if i < 0 {
@@ -916,7 +939,7 @@ func parseClause(fc *FuncContract, w, rest string, en rawLine, path string) erro
 			}
 			cg.Val = e
 		default:
-			return fmt.Errorf("call kind must be ghost, bind, assert, given or given_after")
+			return fmt.Errorf("call kind must be ghost, bind, assert, tally, given or given_after")
 		}
 		fc.CallGhosts = append(fc.CallGhosts, cg)
 	default:
